@@ -5,7 +5,7 @@
 # Eigen decomposition code for symmetric 3x3 matrices, some code taken
 # from the public domain Java Matrix library JAMA
 
-from libc.math cimport sqrt, cos, acos, sin, atan2, M_PI
+from libc.math cimport sqrt, cos, acos, sin, atan2, hypot, M_PI
 from libc.string cimport memcpy
 
 from numpy.linalg import eigh
@@ -28,7 +28,10 @@ cdef inline double SQR(double a) noexcept nogil:
     return a*a
 
 cdef inline double hypot2(double x, double y) noexcept nogil:
-    return sqrt(x*x+y*y)
+    # libc hypot neither underflows nor overflows in the squares; the naive
+    # sqrt(x*x + y*y) returned 0 for |x|, |y| < 1e-162 and tql2 then divided
+    # by it.
+    return hypot(x, y)
 
 
 cdef double det(double [3][3]a) noexcept nogil:
